@@ -168,10 +168,11 @@ func main() {
 	if err != nil {
 		fatal(2, "%v", err)
 	}
+	cleanupDir = scratch
 	defer os.RemoveAll(scratch)
 
 	if *replay != "" {
-		os.Exit(doReplay(&spec, hdir, scratch, *replay))
+		exit(doReplay(&spec, hdir, scratch, *replay))
 	}
 
 	overrides := map[string]int64{}
@@ -204,7 +205,7 @@ func main() {
 	}
 
 	var results []*runResult
-	exit := 0
+	exitCode := 0
 	for _, run := range spec.Runs {
 		if *only != "" && run.Name != *only {
 			continue
@@ -231,7 +232,7 @@ func main() {
 		pkg := prog.ImportedPackage(run.Pkg)
 		if pkg == nil {
 			res.err = "package not loaded: " + run.Pkg
-			exit = 2
+			exitCode = 2
 			continue
 		}
 		timeout := 600
@@ -269,7 +270,7 @@ func main() {
 		rep, err := sym.Explore(cfg)
 		if err != nil {
 			res.err = err.Error()
-			exit = 2
+			exitCode = 2
 			fmt.Printf("ERROR run=%s: %v\n", run.Name, err)
 			continue
 		}
@@ -286,7 +287,7 @@ func main() {
 			for _, c := range run.Covers {
 				if !hit[c] {
 					fmt.Printf("VACUOUS run=%s: cover point %q not reachable\n", run.Name, c)
-					exit = 2
+					exitCode = 2
 				}
 			}
 			fmt.Printf("witness run=%s: %d/%d cover points reached by a satisfiable path\n", run.Name, len(hit), len(run.Covers))
@@ -357,7 +358,7 @@ func main() {
 		}
 	}
 	if *witness {
-		os.Exit(exit)
+		exit(exitCode)
 	}
 
 	// ---- verdict ----
@@ -395,10 +396,10 @@ func main() {
 	}
 	switch {
 	case nviol > 0:
-		os.Exit(1)
-	case inconclusive || exit != 0:
+		exit(1)
+	case inconclusive || exitCode != 0:
 		fmt.Printf("RESULT property=%s tier=%s INCONCLUSIVE\n", prop, *tier)
-		os.Exit(2)
+		exit(2)
 	}
 	fmt.Printf("RESULT property=%s tier=%s HOLDS within bounds (%.1fs)\n", prop, *tier, time.Since(t0).Seconds())
 }
@@ -451,9 +452,19 @@ func contains(xs []string, x string) bool {
 	return false
 }
 
+var cleanupDir string
+
+func exit(code int) {
+	if cleanupDir != "" {
+		os.RemoveAll(cleanupDir)
+	}
+	pprof.StopCPUProfile()
+	os.Exit(code)
+}
+
 func fatal(code int, f string, a ...interface{}) {
 	fmt.Printf("ERROR: "+f+"\n", a...)
-	os.Exit(code)
+	exit(code)
 }
 
 func readJSON(path string, v interface{}) error {
@@ -494,45 +505,9 @@ func pkgDirOf(importPath string) string {
 var pkgClause = regexp.MustCompile(`(?m)^package\s+(\w+)`)
 
 func (ld *loader) load(only string) (*ssa.Program, []*packages.Package, error) {
-	var patterns []string
-	seenPkg := map[string]bool{}
-	for _, run := range ld.spec.Runs {
-		if only != "" && run.Name != only {
-			continue
-		}
-		dir := pkgDirOf(run.Pkg)
-		ld.pkgDirs[run.Pkg] = dir
-		for _, f := range run.Files {
-			ld.overlay[filepath.Join(dir, filepath.Base(f))] = filepath.Join(ld.hdir, f)
-		}
-		if !seenPkg[run.Pkg] {
-			seenPkg[run.Pkg] = true
-			patterns = append(patterns, run.Pkg)
-		}
-	}
-	// package names: from an existing file in the dir or from the harness file
-	for p, dir := range ld.pkgDirs {
-		name := ""
-		for v, real := range ld.overlay {
-			if filepath.Dir(v) == dir {
-				b, _ := os.ReadFile(real)
-				if m := pkgClause.FindSubmatch(b); m != nil {
-					name = string(m[1])
-					break
-				}
-			}
-		}
-		if name == "" {
-			return nil, nil, fmt.Errorf("cannot determine package name of %s", p)
-		}
-		ld.pkgName[p] = name
-		api, err := os.ReadFile(filepath.Join(verifDir, "harness", "api", "zz_verif_api.go"))
-		if err != nil {
-			return nil, nil, err
-		}
-		apiPath := filepath.Join(ld.scratch, "api_"+strings.ReplaceAll(p, "/", "_")+".go")
-		os.WriteFile(apiPath, []byte(strings.Replace(string(api), "PKGNAME", name, 1)), 0o644)
-		ld.overlay[filepath.Join(dir, "zz_verif_api.go")] = apiPath
+	patterns, err := ld.prepareOverlay(only)
+	if err != nil {
+		return nil, nil, err
 	}
 	cfg := &packages.Config{Mode: packages.LoadAllSyntax, Dir: repoDir, Env: goEnv, Overlay: map[string][]byte{}}
 	for v, real := range ld.overlay {
@@ -581,7 +556,7 @@ func (ld *loader) native(pkgs []*packages.Package, run Run, cases []sym.Case) ([
 	if err != nil {
 		return nil, err
 	}
-	src := strings.Replace(string(tmpl), "PKGNAME", name, 1)
+	src := strings.Replace(string(tmpl), "package PKGNAME", "package "+name, 1)
 	src = strings.Replace(src, "ENTRIES", fmt.Sprintf("%q: %s,", run.Entry, run.Entry), 1)
 	testPath := filepath.Join(ld.scratch, "replay_"+run.Name+"_test.go")
 	os.WriteFile(testPath, []byte(src), 0o644)
@@ -645,7 +620,7 @@ func doReplay(spec *Spec, hdir, scratch, path string) int {
 		one := *spec
 		one.Runs = []Run{run}
 		ld.spec = &one
-		if err := ld.prepareOverlayOnly(); err != nil {
+		if _, err := ld.prepareOverlay(""); err != nil {
 			fmt.Println(err)
 			return 2
 		}
@@ -666,30 +641,62 @@ func doReplay(spec *Spec, hdir, scratch, path string) int {
 	return 2
 }
 
-func (ld *loader) prepareOverlayOnly() error {
+// prepareOverlay maps every harness file of the selected runs (and the API file) into the
+// package directory it belongs to; "package PKGNAME" is replaced by the package's real name.
+func (ld *loader) prepareOverlay(only string) ([]string, error) {
+	var patterns []string
+	seenPkg := map[string]bool{}
 	for _, run := range ld.spec.Runs {
+		if only != "" && run.Name != only {
+			continue
+		}
 		dir := pkgDirOf(run.Pkg)
 		ld.pkgDirs[run.Pkg] = dir
-		name := ""
-		for _, f := range run.Files {
-			real := filepath.Join(ld.hdir, f)
-			ld.overlay[filepath.Join(dir, filepath.Base(f))] = real
-			if b, err := os.ReadFile(real); err == nil && name == "" {
-				if m := pkgClause.FindSubmatch(b); m != nil {
-					name = string(m[1])
+		name := ld.pkgName[run.Pkg]
+		if name == "" {
+			if ents, err := os.ReadDir(dir); err == nil {
+				for _, e := range ents {
+					if strings.HasSuffix(e.Name(), ".go") && !strings.HasSuffix(e.Name(), "_test.go") {
+						b, _ := os.ReadFile(filepath.Join(dir, e.Name()))
+						if m := pkgClause.FindSubmatch(b); m != nil {
+							name = string(m[1])
+							break
+						}
+					}
 				}
 			}
 		}
-		ld.pkgName[run.Pkg] = name
-		api, err := os.ReadFile(filepath.Join(verifDir, "harness", "api", "zz_verif_api.go"))
-		if err != nil {
-			return err
+		if name == "" {
+			for _, f := range run.Files {
+				b, _ := os.ReadFile(filepath.Join(ld.hdir, f))
+				if m := pkgClause.FindSubmatch(b); m != nil && string(m[1]) != "PKGNAME" {
+					name = string(m[1])
+					break
+				}
+			}
 		}
-		apiPath := filepath.Join(ld.scratch, "api_"+strings.ReplaceAll(run.Pkg, "/", "_")+".go")
-		os.WriteFile(apiPath, []byte(strings.Replace(string(api), "PKGNAME", name, 1)), 0o644)
-		ld.overlay[filepath.Join(dir, "zz_verif_api.go")] = apiPath
+		if name == "" {
+			return nil, fmt.Errorf("cannot determine package name of %s", run.Pkg)
+		}
+		ld.pkgName[run.Pkg] = name
+		flat := strings.ReplaceAll(run.Pkg, "/", "_")
+		os.MkdirAll(filepath.Join(ld.scratch, flat), 0o755)
+		files := append([]string{"../api/zz_verif_api.go"}, run.Files...)
+		for _, f := range files {
+			b, err := os.ReadFile(filepath.Join(ld.hdir, f))
+			if err != nil {
+				return nil, err
+			}
+			real := filepath.Join(ld.scratch, flat, filepath.Base(f))
+			os.WriteFile(real, []byte(strings.Replace(string(b), "package PKGNAME", "package "+name, 1)), 0o644)
+			ld.overlay[filepath.Join(dir, filepath.Base(f))] = real
+		}
+		if !seenPkg[run.Pkg] {
+			seenPkg[run.Pkg] = true
+			patterns = append(patterns, run.Pkg)
+		}
 	}
-	return nil
+	return patterns, nil
 }
 
 // regenerate is filled in by gen.go
